@@ -42,6 +42,12 @@ class FieldDatatype:
     gfapy.ArgumentError
       If **datatype** is not a valid datatype for tags.
     """
+    self._check_datatype_settable(fieldname, datatype)
+    self._datatype[fieldname] = datatype
+
+  def _check_datatype_settable(self, fieldname, datatype):
+    """Raise the error set_datatype() would raise, without changing
+    anything."""
     if self._is_predefined_tag(fieldname):
       if self.get_datatype(fieldname) != datatype:
         raise gfapy.RuntimeError(
@@ -52,7 +58,6 @@ class FieldDatatype:
         "{} is not a valid custom tag name".format(fieldname))
     if datatype not in gfapy.Field.TAG_DATATYPE:
       raise gfapy.ArgumentError("Unknown datatype: {}".format(datatype))
-    self._datatype[fieldname] = datatype
 
   def _field_datatype(self, fieldname):
     return self._datatype.get(fieldname,
